@@ -151,8 +151,11 @@ def _layout(arr, kind):
 def _pow2_factor(rng, mag):
     """Power of two that keeps mag * k well inside the range where squares cannot over/underflow."""
     k = float(2.0 ** int(rng.integers(-70, 71)))
-    if mag > 0 and not (1e-45 < mag * k < 1e45):
+    # stay above 1e-27: centroid_1dg/2dg clip error values at the hard-coded absolute 1e-30
+    if mag > 0 and not (1e-27 < mag * k < 1e45):
         k = 1.0 / k
+    if mag > 0 and not (1e-27 < mag * k < 1e45):
+        k = 1.0
     return k
 
 
@@ -549,10 +552,17 @@ def _run_find_peaks(case):
                 vk = np.asarray(vk.value if hasattr(vk, 'value') else vk, float)
                 case.close(vk, pv * kf, 'find_peaks_rescaled_image_values_scale', mech=mk, k=kf)
                 if cfunc is not None and 'x_centroid' in tk.colnames and 'x_centroid' in tbl.colnames:
-                    case.close(np.array([np.asarray(tk['x_centroid'], float), np.asarray(tk['y_centroid'], float)]),
-                               np.array([np.asarray(tbl['x_centroid'], float), np.asarray(tbl['y_centroid'], float)]),
-                               'find_peaks_rescaled_image_same_centroids', mech=dict(mk, centroid=cname,
-                                                                                     error=error is not None), k=kf)
+                    emin = float(np.nanmin(error)) * kf if error is not None else 1.0
+                    if emin > 1e-28:
+                        # least-squares based functions: LAPACK does not promise bit-identical results for a
+                        # rescaled right-hand side (measured 9e-16); centre of mass is exact
+                        atol_c = 0.0 if cname in ('com', 'wcom') else 1e-9
+                        case.close(np.array([np.asarray(tk['x_centroid'], float), np.asarray(tk['y_centroid'], float)]),
+                                   np.array([np.asarray(tbl['x_centroid'], float), np.asarray(tbl['y_centroid'], float)]),
+                                   'find_peaks_rescaled_image_same_centroids', atol=atol_c,
+                                   mech=dict(mk, centroid=cname, error=error is not None), k=kf)
+                    else:
+                        case.note('rescaled_error_below_library_clip_not_judged')
 
     # centroids
     if cfunc is not None:
